@@ -99,6 +99,10 @@ func Fresh(out, data []byte) bool {
 	return FreshOrWithin(out, data)
 }
 
+// Owned: x (a slice or a pointer) is nil or memory allocated by the function under contract itself. Natively this
+// cannot be observed (always true); the generator decides it on allocation identities.
+func Owned(x interface{}) bool { return true }
+
 // Window reports whether out is exactly the window data[lo:hi] of the same
 // memory (an alias, not a copy).
 func Window(out, data []byte, lo, hi int) bool {
